@@ -15,7 +15,7 @@ Reset0 ==
   /\ phase' = "snapshot" /\ sidx' = 0 /\ srcAcc' = {} /\ snapIdx' = 0 /\ outbox' = {} /\ lastOut' = 0
   /\ fence' = 0 /\ hasState' = FALSE
   /\ chan' = [i \in Idx |-> 0] /\ sends' = [i \in Idx |-> 0]
-  /\ tDelta' = {} /\ tApplied' = <<>> /\ tw' = 0 /\ ownS' = TRUE /\ ownT' = FALSE
+  /\ tDelta' = {} /\ tApplied' = <<>> /\ tw' = 0 /\ ownS' = TRUE /\ ownT' = FALSE /\ bare' = FALSE
   /\ ev' = [a |-> "Init"]
 
 SeqRange(s) == {s[j] : j \in 1..Len(s)}
@@ -33,6 +33,8 @@ Step(e) ==
     [] e.a = "TgtWrite"   -> TgtWrite
     [] e.a = "Cleanup"    -> Cleanup
     [] e.a = "Restart"    -> Restart(e.who)
+    [] e.a = "RestartBare" -> RestartBare
+    [] e.a = "Resupply"   -> Resupply
 
 TraceNext == l <= Len(Log) /\ l' = l + 1 /\ Step(Log[l].ev)
 
